@@ -83,4 +83,12 @@ def sum256 (msg : ByteArray) : List UInt8 := Id.run do
 /-- SHA-256 of the UTF-8 bytes of a string. -/
 def sumString (s : String) : List UInt8 := sum256 s.toUTF8
 
+/-- list-of-bytes interface (used by the `namekey` driver) -/
+def hash (msg : List UInt8) : List UInt8 := sum256 (ByteArray.mk msg.toArray)
+
+def hexDigit (n : Nat) : Char := if n < 10 then Char.ofNat (48 + n) else Char.ofNat (87 + n)
+
+def hex (bs : List UInt8) : String :=
+  String.ofList (bs.flatMap fun b => [hexDigit (b.toNat / 16), hexDigit (b.toNat % 16)])
+
 end PvModel.Sha256
